@@ -520,6 +520,11 @@ impl PendingEntryList {
             let start = start.unwrap_or(StreamId::min());
             let end = end.unwrap_or(StreamId::max());
             
+            // BTreeMap::range panics on an inverted range
+            if start > end {
+                return Vec::new();
+            }
+            
             Box::new(
                 self.entries_by_id
                     .range(start..=end)
